@@ -176,7 +176,8 @@ class PieceNode:
             partial = pathnode.get_part(loc)
             if self._find_matches(filemap, paths[1:], data + partial):
                 dest_path = os.path.join(self.dest, pathnode.full)
-                copypath(loc, dest_path)
+                if _is_within(self.dest, dest_path):
+                    copypath(loc, dest_path)
                 return True
         return False
 
@@ -393,9 +394,10 @@ class Metadata(CbMixin, ProgMixin):
                     hasher = HasherV2(path, self.piece_length, True)
                     if entry["root"] == hasher.root:
                         dest_path = os.path.join(dest, entry["full"])
-                        copypath(path, dest_path)
-                        self._update()
-                        self.cb(path, dest_path, self.num_pieces)
+                        if _is_within(dest, dest_path):
+                            copypath(path, dest_path)
+                            self._update()
+                            self.cb(path, dest_path, self.num_pieces)
                         break
 
     def _copy_empty(self, entry: dict, filemap: dict, dest: str):
@@ -413,7 +415,7 @@ class Metadata(CbMixin, ProgMixin):
         """
         dest_path = os.path.join(dest, entry["full"])
         for path, size in filemap.get(entry["filename"], []):
-            if size == 0:
+            if size == 0 and _is_within(dest, dest_path):
                 if not os.path.exists(dest_path):
                     copypath(path, dest_path)
                     self._update()
@@ -581,6 +583,27 @@ class Assembler(CbMixin):
                     meta = Metadata(path)
                     metafiles.append(meta)
         return metafiles
+
+
+def _is_within(root: str, path: str) -> bool:
+    """
+    Check that path does not leave the root directory.
+
+    Parameters
+    ----------
+    root : str
+        the directory that must contain path
+    path : str
+        the path to check
+
+    Returns
+    -------
+    bool
+        True if path is located below root
+    """
+    root = os.path.realpath(root)
+    path = os.path.realpath(path)
+    return os.path.commonpath([root, path]) == root and path != root
 
 
 def _index_contents(contents: list, filenames: set) -> dict:
